@@ -381,7 +381,10 @@ def impl_run(case, via_cmdline=None, info=None):
     def fake_open(path, *a, **kw):                  # the only files helpers.py opens are the two resolv.conf files
         txt = files.get(path)
         if txt is None:
-            raise FileNotFoundError(errno.ENOENT, os.strerror(errno.ENOENT), path)
+            # no such file - or one that exists and cannot be opened (unreadable, a directory): every OSError means
+            # "this file contributes no name server" (round l, C15-l); which one is a function of the case
+            e = (errno.ENOENT, errno.EACCES, errno.EISDIR)[(len(case["resolv"]) + len(path) + case.get("resolv_style", 0)) % 3]
+            raise OSError(e, os.strerror(e), path)          # (the matching subclass: PermissionError, ...)
         return io.StringIO(txt)
     rec = {}
     ends = []
